@@ -187,10 +187,11 @@ Qed.
 Theorem wrap_total text width offset indent : wrap text width offset indent <> OutOfFuel.
 Proof.
   unfold wrap. destruct (is_empty text); [discriminate|].
-  destruct (wrap_head (repl_nlsp text) width offset) as [r text2] eqn:E.
+  destruct (is_empty (wrap_prologue text)); [discriminate|].
+  destruct (wrap_head (repl_nlsp (wrap_prologue text)) width offset) as [r text2] eqn:E.
   assert (Hr : r <> OutOfFuel).
-  { unfold wrap_head in E. destruct (width - offset <? String.length (first0_of (repl_nlsp text))); [|inversion E; discriminate].
-    destruct (tw_wrap (width - offset) "" "" (first0_of (repl_nlsp text))) as [[[|l0 ls]|]|] eqn:Et; inversion E; try discriminate.
+  { unfold wrap_head in E. destruct (width - offset <? String.length (first0_of (repl_nlsp (wrap_prologue text)))); [|inversion E; discriminate].
+    destruct (tw_wrap (width - offset) "" "" (first0_of (repl_nlsp (wrap_prologue text)))) as [[[|l0 ls]|]|] eqn:Et; inversion E; try discriminate.
     exfalso. eapply tw_wrap_total; eauto. }
   destruct r; try congruence; try discriminate.
   unfold wrap_tail. destruct (is_empty _); [discriminate|].
@@ -198,16 +199,30 @@ Proof.
   exfalso. eapply fill_tokens_total; eauto.
 Qed.
 
-(* the whole of wrap, relative to the slice: the words of the output are those of the first line kept plus
-   those of the text after the slice.  PARTIAL with respect to "the words of the comment are preserved": what is
-   missing is  pywords first ++ pywords (slice) = pywords text,  which is false in general (see the witnesses). *)
-Theorem wrap_words_preserved_partial text width offset indent out :
-  text <> ""%string -> wrap text width offset indent = Ok out ->
-  exists first text2, wrap_head (repl_nlsp text) width offset = (Ok first, text2) /\
+(* the prologue (expandtabs, then lstrip of every blank but the newline) keeps the words *)
+Lemma lblank_ws c : is_lblank c = true -> ws c = true.
+Proof. unfold is_lblank. intro H. now apply andb_true_iff in H as [H _]. Qed.
+
+Lemma wrap_prologue_words text : pywords (wrap_prologue text) = pywords text.
+Proof.
+  unfold wrap_prologue. rewrite <- (weq_pywords _ _ (expandtabs_weq text 0)).
+  rewrite (take_drop_while is_lblank (expandtabs 0 text)) at 2.
+  symmetry. apply pywords_lead.
+  generalize (expandtabs 0 text). intro s. induction s as [|c s IH]; [reflexivity|]. simpl.
+  destruct (is_lblank c) eqn:E; [|reflexivity]. simpl. now rewrite (lblank_ws c E), IH.
+Qed.
+
+(* the whole of wrap, relative to the slice: the words of the output are those of the first line kept plus those of the
+   text after the slice *)
+Lemma wrap_words_via_slice text width offset indent out :
+  is_empty (wrap_prologue text) = false -> wrap text width offset indent = Ok out ->
+  exists first text2, wrap_head (repl_nlsp (wrap_prologue text)) width offset = (Ok first, text2) /\
     pywords out = pywords first ++ pywords (sdrop (String.length first) (colon_sub text2)).
 Proof.
-  intros Hne H. unfold wrap in H. destruct text as [|c text]; [congruence|]. cbn [is_empty] in H.
-  destruct (wrap_head (repl_nlsp (String c text)) width offset) as [r text2] eqn:E.
+  intros Hne H. unfold wrap in H. destruct (is_empty text) eqn:Et.
+  { destruct text; [|discriminate]. discriminate Hne. }
+  rewrite Hne in H.
+  destruct (wrap_head (repl_nlsp (wrap_prologue text)) width offset) as [r text2] eqn:E.
   destruct r; try discriminate. exists s, text2. split; [reflexivity|].
   eapply wrap_tail_words; [eapply wrap_head_ends_nl; eauto | exact H].
 Qed.
